@@ -229,17 +229,23 @@ func c18Exec(c Sx) (out Sx) {
 	case "src":
 		m, ct := c.List[1].Str(), c.List[2].Str()
 		// one request that carries a different name in every source the content type could select
+		// (the body is the one the MEDIA TYPE asks for: the text before the first ';')
 		var body *bytes.Buffer
+		mt := ct
+		if k := strings.IndexByte(ct, ';'); k >= 0 {
+			mt = ct[:k]
+		}
+		mt = strings.TrimSpace(mt)
 		switch {
-		case strings.Contains(ct, "/x-www-form-urlencoded"):
+		case strings.HasSuffix(mt, "/x-www-form-urlencoded"):
 			body = bytes.NewBufferString("name=form")
-		case strings.Contains(ct, "/form-data"):
+		case strings.HasSuffix(mt, "/form-data"):
 			var ctm string
 			ctm, body = c18Multipart(url.Values{"name": {"multipart"}})
 			ct = ctm
-		case strings.Contains(ct, "/json"):
+		case strings.HasSuffix(mt, "/json"):
 			body = bytes.NewBufferString(`{"name":"json"}`)
-		case strings.Contains(ct, "/xml"):
+		case strings.HasSuffix(mt, "/xml"):
 			body = bytes.NewBufferString(`<c18User><name>xml</name></c18User>`)
 		default:
 			body = bytes.NewBufferString(`{"name":"json"}`)
